@@ -105,7 +105,7 @@ unsigned long mc_virtual_ms(void) { return vclock_ms; }
 int mc_env_choice(int n, const char *what) { return env_choice(n, COST_DEVIATION, what); }
 
 /* ------------------------------------------------------------------ choices */
-static int choose(int n, const uint8_t *cost, uint32_t fp)
+static int choose(int n, const uint8_t *cost, uint64_t fp)
 {
     int c = 0;
     if (n <= 1) return 0;
@@ -128,17 +128,20 @@ int env_choice(int n, int costkind, const char *what)
     if (!mc_active) return 0;
     cost[0] = COST_FREE; for (i = 1; i < n && i < MAXALT; i++) cost[i] = (uint8_t)costkind;
     c = choose(n, cost, model_fingerprint() ^ 0x9e3779b9u);
+    ch_note(0x1000 + (uint64_t)c);
     if (c && ctl->verbose) mc_log("T%d env deviation %d at %s", cur, c, what);
     return c;
 }
 
-uint32_t model_fingerprint(void)
+uint64_t model_fingerprint(void)
 {
-    uint32_t h = 2166136261u; int i;
-#define MIX(x) do { h ^= (uint32_t)(x); h *= 16777619u; } while (0)
-    for (i = 0; i < nthreads; i++) { MIX(T[i].finished); MIX(T[i].pend_kind); MIX(T[i].nops); MIX(T[i].spin_parked); MIX(T[i].woken); }
+    uint64_t h = 1469598103934665603ull; int i;
+#define MIX(x) do { h = ch_mix(h, (uint64_t)(x)); } while (0)
+    for (i = 0; i < nthreads; i++) { MIX(T[i].finished); MIX(T[i].pend_kind); MIX((uintptr_t)T[i].pend_obj); MIX(T[i].pend_arg); MIX(T[i].nops); MIX(T[i].ch); MIX(T[i].spin_parked); MIX(T[i].woken); MIX(T[i].joined + 2 * T[i].detached); }
     for (i = 0; i < 8; i++) MIX(observes[i]);
     MIX(pthread_model_fp());
+    MIX(ch_objects_acc);
+    MIX(vclock_ms);
     MIX(cur);
     return h;
 }
@@ -239,6 +242,7 @@ void sched_point(int kind, void *obj, long arg)
     if (++ctl->steps > ctl->horizon)
         mc_violation("SCHED", "livelock/horizon", "execution exceeded the horizon of %d visible steps (livelock or unbounded loop)", ctl->horizon);
     t->pend_kind = kind; t->pend_obj = obj; t->pend_arg = arg; t->nops++;
+    t->ch = ch_mix(t->ch, (uint64_t)kind);
     if (!op_enabled(t)) { t->blocked_count++; if (kind == OP_RDLOCK || kind == OP_WRLOCK) t->long_waits++; }
     next = pick_next(self, 1);
     if (next < 0) mc_engine_error("no thread to run at a scheduling point");
@@ -318,6 +322,7 @@ int mcrt_create_thread(pthread_t *out, const pthread_attr_t *attr, void *(*fn)(v
     if (attr) pthread_attr_getdetachstate(attr, &ds);
     t->detached = ds == PTHREAD_CREATE_DETACHED;
     vc_copy(t->vc, T[my_tid].vc);        /* creation happens-before the new thread's start */
+    t->ch = ch_mix(T[my_tid].ch, 0x7700 + (uint64_t)id);
     t->vc[id] = 1;
     nthreads = id + 1;
     rc = __real_pthread_create(&t->real, attr, trampoline, t);
@@ -344,6 +349,7 @@ void mcrt_join_thread(int id, void **ret)
     if (!T[id].finished) mc_engine_error("join scheduled although the target is running");
     T[id].joined = 1;
     vc_join(T[my_tid].vc, T[id].vc);
+    ch_note(T[id].ch);
     __real_pthread_join(T[id].real, ret);
 }
 
@@ -374,14 +380,15 @@ static McBounds B;
 static double t_start;
 static struct { char sig[200]; long n; } vsig[64]; static int nvsig;
 static char **outcomes; static int noutcomes, outcomes_cap;
-static uint32_t *fpset; static long fpcap, fpcount;
+static uint64_t *fpset; static long fpcap, fpcount;
+static uint64_t *visited; static long vcap, vcount; static int prune = 1; static long pruned_points;
 static unsigned g_nontrivial_execs[32], g_exists; static long g_any_nontrivial;
 static const char *job_desc;
 static char cmdline[1024];
 
 static double now_s(void) { struct timespec ts; clock_gettime(CLOCK_MONOTONIC, &ts); return ts.tv_sec + ts.tv_nsec * 1e-9; }
 
-static void fp_add(uint32_t fp)
+static void fp_add(uint64_t fp)
 {
     long h;
     if (!fpset) {      /* explorer-only data: kept out of the forked executions (MADV_DONTFORK), otherwise every fork pays for its page tables */
@@ -394,6 +401,23 @@ static void fp_add(uint32_t fp)
     h = fp & (fpcap - 1);
     while (fpset[h]) { if (fpset[h] == fp) return; h = (h + 1) & (fpcap - 1); }
     fpset[h] = fp; fpcount++;
+}
+
+/* visited (state, remaining budgets) pairs: alternatives of an already expanded state are not expanded again */
+static int visited_test_and_set(uint64_t fp, int p, int s_, int d)
+{
+    uint64_t k = ch_mix(fp, (uint64_t)(p * 10000 + s_ * 100 + d) + 0x5bd1e995u); long h;
+    if (!visited) {
+        vcap = 1 << 24; visited = mmap(NULL, vcap * sizeof *visited, PROT_READ | PROT_WRITE, MAP_PRIVATE | MAP_ANONYMOUS, -1, 0);
+        if (visited == MAP_FAILED) { perror("visited"); exit(2); }
+        madvise(visited, vcap * sizeof *visited, MADV_DONTFORK);
+    }
+    if (k == 0) k = 1;
+    h = (long)(k & (uint64_t)(vcap - 1));
+    while (visited[h]) { if (visited[h] == k) return 1; h = (h + 1) & (vcap - 1); }
+    if (vcount * 2 > vcap) { fprintf(stderr, "ENGINE: visited-state table full\n"); exit(2); }
+    visited[h] = k; vcount++;
+    return 0;
 }
 
 static void outcome_add(const char *o)
@@ -479,7 +503,7 @@ static void explore(uint8_t *pre, uint8_t *pre_n, int len, int used_p, int used_
     if (ctl->overflow) { fprintf(stderr, "ENGINE: more than %d choice points in one execution\n", MAXCHOICE); exit(2); }
     n = ctl->ntrace;
     tr = malloc(sizeof(Choice) * (n ? n : 1)); memcpy(tr, ctl->trace, sizeof(Choice) * n);
-    for (i = 0; i < n; i++) fp_add(tr[i].fp ^ (uint32_t)(i * 2654435761u) * 0);
+    for (i = 0; i < n; i++) fp_add(tr[i].fp);
     if (rc == 77) report_violation(pre, pre_n, len);
     else if (rc != 0) { fprintf(stderr, "ENGINE: execution exited with %d\n", rc); exit(2); }
     else {
@@ -496,6 +520,7 @@ static void explore(uint8_t *pre, uint8_t *pre_n, int len, int used_p, int used_
         for (i = 0; i < n; i++) { np[i] = tr[i].chosen; nn[i] = tr[i].n; }
         for (i = len; i < n && i < MAXPREFIX - 1; i++) {
             int alt;
+            if (prune && visited_test_and_set(tr[i].fp, B.preemptions - p, B.spurious - s, B.deviations - d)) { pruned_points++; break; }
             for (alt = 1; alt < tr[i].n; alt++) {
                 int c = tr[i].cost[alt], p2 = p, s2 = s, d2 = d;
                 if (c == COST_PREEMPT) p2++; else if (c == COST_SPURIOUS) s2++; else if (c == COST_DEVIATION) d2++;
@@ -539,6 +564,7 @@ int mc_main(int argc, char **argv, const McHarness *hs, int nh)
         else if (!strcmp(argv[i], "-X")) B.max_execs = atol(argv[++i]);
         else if (!strcmp(argv[i], "-D")) B.deadline_s = atof(argv[++i]);
         else if (!strcmp(argv[i], "--replay")) replay = argv[++i];
+        else if (!strcmp(argv[i], "-N")) prune = 0;
         else if (!strcmp(argv[i], "--")) { first_harg = i + 1; break; }
         else { fprintf(stderr, "unknown option %s\n", argv[i]); return 2; }
     }
@@ -586,7 +612,7 @@ int mc_main(int argc, char **argv, const McHarness *hs, int nh)
     explore(pre, pre_n, 0, 0, 0, 0);
     hout_stat("executions", xs.execs); hout_stat("visible_steps", xs.steps); hout_stat("violating_executions", xs.viol_execs);
     hout_stat("max_choice_points", xs.max_depth); hout_stat("distinct_fingerprints", fpcount); hout_stat("distinct_outcomes", noutcomes);
-    hout_stat("nontrivial_executions", g_any_nontrivial); hout_stat("alternatives_cut_by_bound", xs.bound_skips);
+    hout_stat("nontrivial_executions", g_any_nontrivial); hout_stat("states_pruned_as_already_expanded", pruned_points); hout_stat("expanded_states", vcount); hout_stat("alternatives_cut_by_bound", xs.bound_skips);
     for (i = 0; i < 32; i++) if (g_nontrivial_execs[i]) { char k[48]; snprintf(k, sizeof k, "nontrivial_slot%d_executions", i); hout_stat(k, g_nontrivial_execs[i]); }
     fprintf(hout_f, "{\"t\":\"exists\",\"job\":"); hout_esc(hout_f, cmdline); fprintf(hout_f, ",\"mask\":%u}\n", g_exists);
     if (xs.capped) { fprintf(hout_f, "{\"t\":\"incomplete\",\"s\":"); { char b[300]; snprintf(b, sizeof b, "%s stopped by cap after %ld executions", cmdline, xs.execs); hout_esc(hout_f, b); } fprintf(hout_f, "}\n"); }
